@@ -71,6 +71,10 @@ def oracle_programs(prop):
         excl = set(json.load(open(os.path.join(ROOT, "witness", "oracle_validation.json"))).get("excluded", []))
     except Exception:
         pass
+    # a seeded change under test is never confirmed by its own demonstration program
+    own = os.environ.get("VERIF_ORACLE_EXCLUDE")
+    if own:
+        excl.add("seeded/%s/demo" % own)
     return [r for r in res if r[0] not in excl]
 
 
